@@ -725,4 +725,185 @@ theorem rt_step (fix : Bool) (f : Nat)
         (fun p hp => startsOK_encode p.1 (hmem p hp).1) helem (by simp at hl; omega)]
     simp
 
+
+theorem pf_step (fix : Bool) (f : Nat)
+    (ihrt : ∀ y, valid y = true → Handles fix y → (encode y).length < f → RT fix f y)
+    (ihpf : ∀ y, valid y = true → Handles fix y → PF fix f y)
+    (x : W) (hv : valid x = true) (hfx : Handles fix x) : PF fix (f + 1) x := by
+  intro k hk hkf
+  cases x with
+  | int h i => exact pf_int fix f h i k hk
+  | bytes h b =>
+    simp only [valid, Bool.and_eq_true, decide_eq_true_eq] at hv
+    simp only [encode] at hk ⊢
+    exact pf_strlike fix f 2 (Or.inl rfl) h b hv.1 hv.2 k hk
+  | str h s =>
+    simp only [valid, Bool.and_eq_true, decide_eq_true_eq] at hv
+    simp only [encode] at hk ⊢
+    exact pf_strlike fix f 3 (Or.inr rfl) h s hv.1.1 hv.1.2 k hk
+  | bool b => simp [encode] at hk; subst hk; rfl
+  | null => simp [encode] at hk; subst hk; rfl
+  | f16 p => exact float_pf fix f 25 2 (fun p => .float (widen16 p)) p (by omega) (run_f16 fix _ _ _) k hk
+  | f32 p => exact float_pf fix f 26 4 (fun p => .float (widen32 p)) p (by omega) (run_f32 fix _ _ _) k hk
+  | f64 p => exact float_pf fix f 27 8 .float p (by omega) (run_f64 fix _ _ _) k hk
+  | bytesI cs =>
+    simp only [valid] at hv
+    have hcs := chunksOk_mem hv
+    simp only [encode, encChunks_eq] at hk ⊢
+    cases k with
+    | zero => rfl
+    | succ j =>
+      obtain ⟨f', rfl⟩ : ∃ f', f = f' + 1 := ⟨f - 1, by omega⟩
+      rw [take_succ_byte, show byte 0x5f = byte (2 * 32 + 31) from rfl, decT_indef fix (f' + 1) 2 _ (by omega),
+        run_bytesI,
+        decChunks_pf (decT fix (f' + 1)) false (fun c => encHead 2 c.1 c.2.length ++ c.2) (fun c => .bytes c.2) cs j
+          (f' + 1) (fun c _ => by simp [chunkOf])
+          (fun c hc => encHead_starts 2 c.1 _ (by omega) (hcs c hc).1 c.2)
+          (fun c hc r => by
+            simp only [List.append_assoc]
+            exact rt_bytes fix f' c.1 c.2 r (hcs c hc).1 (hcs c hc).2.1)
+          (fun c hc i hi => pf_strlike fix f' 2 (Or.inl rfl) c.1 c.2 (hcs c hc).1 (hcs c hc).2.1 i hi)
+          (by simp at hk; omega) (by omega)]
+  | strI cs =>
+    simp only [valid] at hv
+    have hcs := chunksOk_mem hv
+    simp only [encode, encChunks_eq] at hk ⊢
+    cases k with
+    | zero => rfl
+    | succ j =>
+      obtain ⟨f', rfl⟩ : ∃ f', f = f' + 1 := ⟨f - 1, by omega⟩
+      rw [take_succ_byte, show byte 0x7f = byte (3 * 32 + 31) from rfl, decT_indef fix (f' + 1) 3 _ (by omega),
+        run_strI,
+        decChunks_pf (decT fix (f' + 1)) true (fun c => encHead 3 c.1 c.2.length ++ c.2) (fun c => .str c.2) cs j
+          (f' + 1) (fun c _ => by simp [chunkOf])
+          (fun c hc => encHead_starts 3 c.1 _ (by omega) (hcs c hc).1 c.2)
+          (fun c hc r => by
+            simp only [List.append_assoc]
+            exact rt_str fix f' c.1 c.2 r (hcs c hc).1 (hcs c hc).2.1 ((hcs c hc).2.2 rfl))
+          (fun c hc i hi => pf_strlike fix f' 3 (Or.inr rfl) c.1 c.2 (hcs c hc).1 (hcs c hc).2.1 i hi)
+          (by simp at hk; omega) (by omega)]
+  | arr h xs =>
+    simp only [valid, Bool.and_eq_true] at hv
+    obtain ⟨hok, hvl⟩ := hv
+    have hmem := validL_mem hvl
+    have hhm : ∀ x ∈ xs, Handles fix x := fun x hx => hfx.imp id (fun hn => noIndefStrL_mem (by simpa [noIndefStr] using hn) x hx)
+    simp only [encode, encodeL_eq] at hk ⊢
+    have hpos := encHead_pos 4 h xs.length
+    by_cases hlt : k < (encHead 4 h xs.length).length
+    · rw [take_append_of_lt _ _ _ hlt]
+      exact decT_head_pf fix f 4 h _ k (by omega) hlt
+    · rw [decT_head_take fix f 4 h _ _ k (by omega) hok (by omega), run_arr fix _ _ _ _ _ (scOf_ne_31 h _ hok),
+        decElems_pf (fun x => dropRet (decT fix f x)) encode value xs (k - (encHead 4 h xs.length).length)
+          (fun x hx hle r => by rw [ihrt x (hmem x hx) (hhm x hx) (by omega) r, dropRet_ok])
+          (fun x hx i hi hik => by rw [ihpf x (hmem x hx) (hhm x hx) i hi (by omega), dropRet_err])
+          (by simp at hk; omega)]
+  | arrI xs =>
+    simp only [valid] at hv
+    have hmem := validL_mem hv
+    have hhm : ∀ x ∈ xs, Handles fix x := fun x hx => hfx.imp id (fun hn => noIndefStrL_mem (by simpa [noIndefStr] using hn) x hx)
+    simp only [encode, encodeL_eq] at hk ⊢
+    cases k with
+    | zero => rfl
+    | succ j =>
+      rw [take_succ_byte, show byte 0x9f = byte (4 * 32 + 31) from rfl, decT_indef fix f 4 _ (by omega), run_arrI,
+        decUntil_pf breakMarker (fun x => dropRet (decT fix f x)) encode value xs j f
+          (fun x hx => startsOK_encode x (hmem x hx))
+          (fun x hx hle r => by rw [ihrt x (hmem x hx) (hhm x hx) (by omega) r, dropRet_ok])
+          (fun x hx i hi hik => by rw [ihpf x (hmem x hx) (hhm x hx) i hi (by omega), dropRet_err])
+          (by simp at hk; omega) (by omega)]
+  | map h kvs =>
+    simp only [valid, Bool.and_eq_true] at hv
+    obtain ⟨⟨hok, hvl⟩, _⟩ := hv
+    have hmem := validKV_mem hvl
+    have hhm : ∀ p ∈ kvs, Handles fix p.1 ∧ Handles fix p.2 := fun p hp =>
+      ⟨hfx.imp id (fun hn => (noIndefStrKV_mem (by simpa [noIndefStr] using hn) p hp).1),
+       hfx.imp id (fun hn => (noIndefStrKV_mem (by simpa [noIndefStr] using hn) p hp).2)⟩
+    simp only [encode, encodeKV_eq] at hk ⊢
+    have hpos := encHead_pos 5 h kvs.length
+    by_cases hlt : k < (encHead 5 h kvs.length).length
+    · rw [take_append_of_lt _ _ _ hlt]
+      exact decT_head_pf fix f 5 h _ k (by omega) hlt
+    · rw [decT_head_take fix f 5 h _ _ k (by omega) hok (by omega), run_map fix _ _ _ _ _ (scOf_ne_31 h _ hok),
+        decPairs_pf (fun x => dropRet (decT fix f x)) encode value kvs (k - (encHead 5 h kvs.length).length)
+          (fun p hp => ⟨fun hle r => by rw [ihrt p.1 (hmem p hp).1 (hhm p hp).1 (by omega) r, dropRet_ok],
+                        fun hle r => by rw [ihrt p.2 (hmem p hp).2 (hhm p hp).2 (by omega) r, dropRet_ok]⟩)
+          (fun p hp => ⟨fun i hi hik => by rw [ihpf p.1 (hmem p hp).1 (hhm p hp).1 i hi (by omega), dropRet_err],
+                        fun i hi hik => by rw [ihpf p.2 (hmem p hp).2 (hhm p hp).2 i hi (by omega), dropRet_err]⟩)
+          (by simp at hk; omega)]
+  | mapI kvs =>
+    simp only [valid, Bool.and_eq_true] at hv
+    obtain ⟨hvl, _⟩ := hv
+    have hmem := validKV_mem hvl
+    have hhm : ∀ p ∈ kvs, Handles fix p.1 ∧ Handles fix p.2 := fun p hp =>
+      ⟨hfx.imp id (fun hn => (noIndefStrKV_mem (by simpa [noIndefStr] using hn) p hp).1),
+       hfx.imp id (fun hn => (noIndefStrKV_mem (by simpa [noIndefStr] using hn) p hp).2)⟩
+    simp only [encode, encodeKV_eq] at hk ⊢
+    cases k with
+    | zero => rfl
+    | succ j =>
+      rw [take_succ_byte, show byte 0xbf = byte (5 * 32 + 31) from rfl, decT_indef fix f 5 _ (by omega), run_mapI,
+        decPairsUntil_pf breakMarker (fun x => dropRet (decT fix f x)) encode value kvs j f
+          (fun p hp => startsOK_encode p.1 (hmem p hp).1)
+          (fun p hp => ⟨fun hle r => by rw [ihrt p.1 (hmem p hp).1 (hhm p hp).1 (by omega) r, dropRet_ok],
+                        fun hle r => by rw [ihrt p.2 (hmem p hp).2 (hhm p hp).2 (by omega) r, dropRet_ok]⟩)
+          (fun p hp => ⟨fun i hi hik => by rw [ihpf p.1 (hmem p hp).1 (hhm p hp).1 i hi (by omega), dropRet_err],
+                        fun i hi hik => by rw [ihpf p.2 (hmem p hp).2 (hhm p hp).2 i hi (by omega), dropRet_err]⟩)
+          (by simp at hk; omega) (by omega)]
+
+theorem main (fix : Bool) (f : Nat) :
+    (∀ x, valid x = true → Handles fix x → (encode x).length < f → RT fix f x) ∧
+    (∀ x, valid x = true → Handles fix x → PF fix f x) := by
+  induction f with
+  | zero => exact ⟨fun x _ _ h => absurd h (Nat.not_lt_zero _), fun x _ _ k _ hk => absurd hk (Nat.not_lt_zero _)⟩
+  | succ f ih =>
+    exact ⟨fun x hv hh hl => rt_step fix f ih.1 x hv hh hl, fun x hv hh => pf_step fix f ih.1 ih.2 x hv hh⟩
+
+/-! ### torepr of a decoded valid tree -/
+
+theorem vkey_value (k : W) (b : Bytes) (h : keyBytes k = some b) : vkey (value k) = some b := by
+  cases k <;> simp [keyBytes] at h <;> subst h <;> simp [value, vkey]
+
+mutual
+theorem reprOK_value : ∀ x, valid x = true → reprOK (value x) = true
+  | .int _ _, _ => by simp [value, reprOK]
+  | .bytes _ _, _ => by simp [value, reprOK]
+  | .bytesI _, _ => by simp [value, reprOK]
+  | .str _ _, _ => by simp [value, reprOK]
+  | .strI _, _ => by simp [value, reprOK]
+  | .bool _, _ => by simp [value, reprOK]
+  | .null, _ => by simp [value, reprOK]
+  | .f16 _, _ => by simp [value, reprOK]
+  | .f32 _, _ => by simp [value, reprOK]
+  | .f64 _, _ => by simp [value, reprOK]
+  | .arr _ xs, h => by
+    simp only [valid, Bool.and_eq_true] at h
+    simp [value, reprOK, reprOKL_value xs h.2]
+  | .arrI xs, h => by
+    simp only [valid] at h
+    simp [value, reprOK, reprOKL_value xs h]
+  | .map _ kvs, h => by
+    simp only [valid, Bool.and_eq_true] at h
+    have ⟨h1, h2⟩ := reprOKKV_value kvs h.1.2
+    simp [value, reprOK, h1, h2, h.2]
+  | .mapI kvs, h => by
+    simp only [valid, Bool.and_eq_true] at h
+    have ⟨h1, h2⟩ := reprOKKV_value kvs h.1
+    simp [value, reprOK, h1, h2, h.2]
+theorem reprOKL_value : ∀ xs, validL xs = true → reprOKL (valueL xs) = true
+  | [], _ => by simp [valueL, reprOKL]
+  | x :: xs, h => by
+    simp only [validL, Bool.and_eq_true] at h
+    simp [valueL, reprOKL, reprOK_value x h.1, reprOKL_value xs h.2]
+theorem reprOKKV_value : ∀ kvs, validKV kvs = true →
+    reprOKKV (valueKV kvs) = true ∧ vkeys (valueKV kvs) = keysOf kvs
+  | [], _ => by simp [valueKV, reprOKKV, vkeys, keysOf]
+  | (k, v) :: r, h => by
+    simp only [validKV, Bool.and_eq_true] at h
+    obtain ⟨⟨⟨hk, _⟩, hv⟩, hr⟩ := h
+    obtain ⟨b, hb⟩ := Option.isSome_iff_exists.mp hk
+    have hvk := vkey_value k b hb
+    have ⟨h1, h2⟩ := reprOKKV_value r hr
+    simp [valueKV, reprOKKV, vkeys, keysOf, hvk, hb, reprOK_value v hv, h1, h2]
+end
+
 end Proofs.C16.Cbor
